@@ -36,7 +36,7 @@ PRE = ("import numpy as np, qibo, warnings, tempfile, os\nwarnings.simplefilter(
 KINDS = ["gates", "samples", "probabilities", "cr-samples", "cr-state", "state"]
 HISTS = [[], ["S"], ["F"], ["S", "F"], ["F", "S"], ["Sr"], ["Fr"], ["Fd", "S"]]
 VIAS = ["dict", "file", "load_result"]
-LAYOUTS = [[("a", (3, 0)), ("b", (1,))], [("a", (1, 2, 0))], [("r0", (0,)), ("r1", (2,)), ("r2", (3,))], [("m", (2, 1))]]
+LAYOUTS = [[(None, (2, 0)), (None, (3,))], [("a", (3, 0)), ("b", (1,))], [("a", (1, 2, 0))], [("r0", (0,)), ("r1", (2,)), ("r2", (3,))], [("m", (2, 1))]]
 
 CALLS = {"S": "r.samples()", "F": "r.frequencies()", "Sr": "r.samples(registers=True)", "Fr": "r.frequencies(registers=True)",
          "Fd": "r.frequencies(binary=False)"}
@@ -48,7 +48,7 @@ def build_src(kind, layout, nshots, seed):
          "c0 = Circuit(4); c0.add(gates.H(0)); c0.add(gates.CNOT(0, 3)); c0.add(gates.RY(1, 0.7))\nstate = np.asarray(c0().state())\n"
          "c = Circuit(4); c.add(gates.H(0)); c.add(gates.CNOT(0, 3)); c.add(gates.RY(1, 0.7))\n")
     for name, qs in layout:
-        s += f"c.add(gates.M(*{tuple(qs)!r}, register_name={name!r}))\n"
+        s += f"c.add(gates.M(*{tuple(qs)!r}, register_name={name!r}))\n" if name else f"c.add(gates.M(*{tuple(qs)!r}))\n"
     nm = sum(len(qs) for _, qs in layout)
     s += f"ms = c.measurements\nshots = rng.integers(0, 2, size=(nshots, {nm}))\n"
     if kind == "gates":
@@ -133,7 +133,7 @@ def search_constructed_results(ctx):
                 nshots = rng.choice([1, 5, 23])
                 seed = rng.randint(0, 10**6)
                 src = script(kind, layout, nshots, seed, hist, via)
-                ctx.case(("constructed-result", kind, tuple(hist), via, nshots, tuple(n for n, _ in layout)))
+                ctx.case(("constructed-result", kind, tuple(hist), via, nshots, tuple(str(n) for n, _ in layout)))
                 ctx.stat(f"constructed_result_{kind}")
                 env = {}
                 prob = None
@@ -177,6 +177,11 @@ BASIS_CASES = [
     ["gates.M(0, basis='X', register_name='a')", "gates.M(2, 1, basis=[gates.Z, gates.Y], register_name='b')"],
     ["gates.M(1, basis=gates.Y, p0=0.1)"],
     ["gates.M(0, 1, 2, basis=[gates.Y, gates.Z, gates.X])"],
+    # registers named by Circuit.add, and a collapsing measurement (raw of the executed circuit)
+    ["gates.M(0)", "gates.M(2, 1)"],
+    ["gates.M(1, basis=gates.X)", "gates.M(0)"],
+    ["gates.M(1, collapse=True)", "gates.H(1)", "gates.M(1, 0)"],
+    ["gates.M(2, 0, collapse=True)", "gates.X(2)", "gates.M(2, register_name='fin')"],
 ]
 
 BASIS_CHECK = '''
@@ -191,11 +196,14 @@ routes = {"raw": lambda k: Circuit.from_dict(k.raw), "json": lambda k: Circuit.f
           "raw-twice": lambda k: Circuit.from_dict(Circuit.from_dict(k.raw).raw)}
 c2 = routes[route](c)
 assert sig(c2) == sig(c), ("queue / registers differ", sig(c2), sig(c))
-s1, q1 = probs(c); s2, q2 = probs(c2)
-assert q1 == q2 and np.allclose(s1, s2, atol=1e-12), "state before the measurement differs (basis rotations)"
-m1 = [(m.register_name, tuple(m.target_qubits), bool(m.collapse), m.bitflip_map) for m in c.measurements]
-m2 = [(m.register_name, tuple(m.target_qubits), bool(m.collapse), m.bitflip_map) for m in c2.measurements]
-assert m1 == m2, (m1, m2)
+allm = lambda k: [(m.register_name, tuple(m.target_qubits), bool(m.collapse), m.bitflip_map) for m in k.queue if isinstance(m, gates.M)]
+assert allm(c2) == allm(c), (allm(c2), allm(c))
+if not any(m[2] for m in allm(c)):  # a collapse draws: the states of two executions differ legitimately
+    s1, q1 = probs(c); s2, q2 = probs(c2)
+    assert q1 == q2 and np.allclose(s1, s2, atol=1e-12), "state before the measurement differs (basis rotations)"
+else:
+    r2 = c2(nshots=4)
+    assert {k: np.asarray(v).shape for k, v in r2.samples(registers=True).items()} == {n: (4, len(q)) for n, q in c.measurement_tuples.items()}
 '''
 
 
@@ -226,6 +234,84 @@ def search_basis_measurements(ctx):
     ctx.ob("C13_search_basis_measurements", nbad == 0, "search", f"{nbad} circuits with rotated-basis measurements do not round-trip through raw/from_dict")
 
 
+# ---------------------------------------------------------------------------
+# circuit-level attributes that `raw` serialises: set at construction AND changed later
+
+ATTR_CHECK = '''
+import json
+def kind_and_state(k):
+    k2 = k.copy(deep=True)
+    k2.density_matrix = k.density_matrix  # the copy is only a way to execute without side effects
+    st = np.asarray(NumpyBackend().execute_circuit(k2, nshots=3).state())
+    return st
+routes = {"raw": lambda k: Circuit.from_dict(k.raw), "json": lambda k: Circuit.from_dict(json.loads(json.dumps(k.raw))),
+          "raw-twice": lambda k: Circuit.from_dict(Circuit.from_dict(k.raw).raw)}
+c2 = routes[route](c)
+cur = (c.nqubits, bool(c.density_matrix), list(c.wire_names))
+got = (c2.nqubits, bool(c2.density_matrix), list(c2.wire_names))
+assert got == cur, ("nqubits / density_matrix / wire_names", got, cur)
+assert [(type(g).__name__, tuple(g.qubits)) for g in c2.queue] == [(type(g).__name__, tuple(g.qubits)) for g in c.queue]
+s1, s2 = kind_and_state(c), kind_and_state(c2)
+want = (2 ** c.nqubits,) * (2 if c.density_matrix else 1)
+assert s1.shape == want, ("the circuit itself is not executed as its flag says", s1.shape)
+assert s2.shape == s1.shape and np.allclose(s1, s2, atol=1e-12), ("executed state", s2.shape, s1.shape)
+'''
+
+WIRE_SETS = ["None", "['a', 'b', 'c']", "['q2', 'q0', 'q1']", "[5, 3, 1]"]
+
+
+def search_circuit_attributes(ctx):
+    rng = ctx.rng
+    ctors = ["Circuit(3)", "Circuit(3, density_matrix=True)", "Circuit(3, wire_names=['x', 'y', 'z'])",
+             "Circuit(wire_names=['w0', 'w1', 'w2'])", "Circuit(3, density_matrix=True, wire_names=['x', 'y', 'z'])",
+             "Circuit(nqubits=3, density_matrix=False)"]
+    body = "c.add(gates.H(0)); c.add(gates.RY(1, 0.4)); c.add(gates.CNOT(0, 2))\n"
+    meas = "c.add(gates.M(2, 0, register_name='out'))\n"
+    # actions after construction; every single one with every constructor, then random sequences
+    actions = {
+        "dm-on": "c.density_matrix = True\n",
+        "dm-off": "c.density_matrix = False\n",
+        "pqc": "from qibo.quantum_info import pqc_integral\npqc_integral(c, power_t=1, samples=2, backend=NumpyBackend())\nc.set_parameters([0.4])\n",
+        "execute": "c(nshots=2)\n",
+    }
+    for i, w in enumerate(WIRE_SETS):
+        actions[f"wires-{i}"] = f"c.wire_names = {w}\n"
+    plans = [(ct, [a], True, pos) for ct in ctors for a in actions for pos in ("before-gates", "after-gates")]
+    plans = [p for p in plans if not (p[1] == ["pqc"] and p[3] == "before-gates")]
+    for _ in range(40 if ctx.thorough else 14):
+        plans.append((rng.choice(ctors), [rng.choice(list(actions)) for _ in range(rng.randint(2, 4))], rng.random() < 0.6,
+                      rng.choice(["before-gates", "after-gates"])))
+    plans.append((ctors[0], [], True, "after-gates"))
+    nbad = 0
+    for ct, acts, with_m, pos in plans:
+        acts = [a for a in acts if not (a == "pqc" and (pos == "before-gates" or with_m))] if "pqc" in acts else acts
+        with_meas = with_m and "pqc" not in acts
+        for route in (("raw", "json", "raw-twice") if ctx.thorough else ("raw", rng.choice(["json", "raw-twice"]))):
+            act_src = "".join(actions[a] for a in acts)
+            src = PRE + f"c = {ct}\n"
+            if pos == "before-gates" and "execute" not in acts:
+                src += act_src + body + (meas if with_meas else "")
+            else:
+                src += body + (meas if with_meas else "") + act_src
+            src += f"route = {route!r}\n" + ATTR_CHECK
+            ctx.case(("circuit-attributes", ct, tuple(acts), pos, with_meas, route))
+            ctx.stat("circuit_attribute_roundtrips")
+            try:
+                exec(compile(src, "<c13-attrs>", "exec"), {})
+                continue
+            except AssertionError as e:
+                prob = f"AssertionError: {str(e)[:200]}"
+            except Exception as e:  # noqa: BLE001
+                prob = f"{type(e).__name__}: {str(e)[:200]}"
+            nbad += 1
+            what = "density_matrix" if any(a.startswith(("dm", "pqc")) for a in acts) else ("wire_names" if any(a.startswith("wires") for a in acts) else "construction")
+            ctx.fail(f"dict:circuit-attributes:{what}", f"{ct} then {acts or 'nothing'} ({pos}), Circuit.from_dict(c.raw) via {route}: {prob}",
+                     src, expected="the rebuilt circuit has the CURRENT nqubits, density_matrix, wire_names and is executed to the same kind of state",
+                     observed=prob, broken=["C13_search_circuit_attributes"])
+    ctx.ob("C13_search_circuit_attributes", nbad == 0, "search", f"{nbad} circuits do not keep their current attributes through raw/from_dict")
+
+
 def run_suites(ctx):
     search_constructed_results(ctx)
     search_basis_measurements(ctx)
+    search_circuit_attributes(ctx)
